@@ -45,9 +45,6 @@ type MObj struct {
 	Kids   map[string]int
 	Parent int
 	Live   bool
-	// cached hash of Pages (reset by mut; see pagesHash)
-	pgHash   uint64
-	pgHashOK bool
 }
 
 type Limits struct {
@@ -159,11 +156,9 @@ func (m *Model) Clone() *Model {
 func (m *Model) mut(id int) *MObj {
 	o := m.Objs[id]
 	if m.owned[id] {
-		o.pgHashOK = false
 		return o
 	}
 	c := *o
-	c.pgHashOK = false
 	if o.Kids != nil {
 		c.Kids = make(map[string]int, len(o.Kids))
 		for k, v := range o.Kids {
@@ -295,7 +290,6 @@ func (m *Model) readRange(o *MObj, off, n uint64) []byte {
 }
 
 func (m *Model) writeRange(o *MObj, off uint64, data []byte) {
-	o.pgHashOK = false
 	n := uint64(len(data))
 	for i := uint64(0); i < n; {
 		pg := (off + i) / pageSz
@@ -315,7 +309,6 @@ func (m *Model) writeRange(o *MObj, off uint64, data []byte) {
 }
 
 func (m *Model) truncate(o *MObj, sz uint64) {
-	o.pgHashOK = false
 	if sz < o.Size {
 		for pg := range o.Pages {
 			if pg*pageSz >= sz {
